@@ -6,7 +6,7 @@
    Equal.  TransAt f a b c: if f a b and f b c are both in {<,=} (or both in
    {>,=}) then f a c is their composition (= only if both are =). *)
 From verif Require Import lib.Base model.C08_Value model.C09.
-From verif Require Import proofs.C08_Value_proofs proofs.C09_proofs.
+From verif Require Import proofs.C08_Value_proofs proofs.C09_float_proofs proofs.C09_proofs.
 Open Scope N_scope.
 
 (* ---- eq is an equivalence, except on values holding NaN ---- *)
@@ -62,16 +62,62 @@ Theorem C09_cmp_trans_refuted :
 Proof. exact cmp_trans_refuted_w. Qed.
 Print Assumptions C09_cmp_trans_refuted.
 
-(* the documented per-type orders (numbers by mathematical value, strings by
-   bytes, booleans false-first, lists lexicographically): compare answers what
-   the specification spec_cmp says, for values whose numbers are exact *)
-Theorem C09_cmp_is_spec_exact : forall a b o,
-  nums_all is_exact a = true -> nums_all is_exact b = true ->
-  spec_cmp a b = Some o -> cmp a b = o.
-Proof. exact cmp_is_spec_exact. Qed.
-Print Assumptions C09_cmp_is_spec_exact.
+(* the documented per-type orders (numbers by mathematical value with NaN equal
+   to NaN and below all other numbers, strings by bytes, booleans false-first,
+   lists lexicographically): compare answers what the specification spec_cmp
+   says, for all values whose numbers are all exact or all inexact *)
+Theorem C09_cmp_is_spec : forall a b o,
+  same_exactness a b -> spec_cmp a b = Some o -> cmp a b = o.
+Proof. exact cmp_is_spec. Qed.
+Print Assumptions C09_cmp_is_spec.
 
-(* FULL STATEMENT: the same for all numbers — false: 2^64 vs 1e30 and +Inf
+(* in particular every pair of float64 values (finite, +-0, +-Inf, NaN, any
+   64-bit pattern): compareFloat is the documented order; its core is that
+   the real values f_to_Q are ordered exactly as the keys f_key *)
+Theorem C09_cmp_float_is_spec : forall x y,
+  spec_cmp (VFloat x) (VFloat y) = Some (cmp (VFloat x) (VFloat y)).
+Proof. exact cmp_float_pair_is_spec. Qed.
+Print Assumptions C09_cmp_float_is_spec.
+
+Theorem C09_float_value_order : forall x y,
+  QArith_base.Qcompare (f_to_Q x) (f_to_Q y) = Z.compare (f_key x) (f_key y).
+Proof. exact f_to_Q_compare. Qed.
+Print Assumptions C09_float_value_order.
+
+(* transitivity stated on the documented order itself *)
+Theorem C09_spec_trans_inexact : forall a b c o1 o2 o3 o,
+  wf a -> wf b -> wf c ->
+  nums_all is_float a = true -> nums_all is_float b = true -> nums_all is_float c = true ->
+  spec_cmp a b = Some o1 -> spec_cmp b c = Some o2 -> spec_cmp a c = Some o3 ->
+  comp o1 o2 = Some o -> o3 = o.
+Proof. exact spec_trans_inexact. Qed.
+Print Assumptions C09_spec_trans_inexact.
+
+Theorem C09_spec_trans_exact : forall a b c o1 o2 o3 o,
+  wf a -> wf b -> wf c ->
+  nums_all is_exact a = true -> nums_all is_exact b = true -> nums_all is_exact c = true ->
+  spec_cmp a b = Some o1 -> spec_cmp b c = Some o2 -> spec_cmp a c = Some o3 ->
+  comp o1 o2 = Some o -> o3 = o.
+Proof. exact spec_trans_exact. Qed.
+Print Assumptions C09_spec_trans_exact.
+
+(* the three recorded mixed-compare classes, pinned down: an exact number that
+   meets a float is rounded by ConvertToFloat64 first and then compared as a
+   float, so the answer is the documented order of the ROUNDED value *)
+Theorem C09_mixed_compare_is_float_rounding : forall a y,
+  is_exact a = true ->
+  cmp a (VFloat y) = cmp (VFloat (to_f64 a)) (VFloat y) /\
+  cmp (VFloat y) a = cmp (VFloat y) (VFloat (to_f64 a)).
+Proof. exact mixed_compare_is_float_rounding. Qed.
+Print Assumptions C09_mixed_compare_is_float_rounding.
+
+Theorem C09_mixed_compare_spec_of_rounded : forall a y,
+  is_exact a = true ->
+  spec_cmp (VFloat (to_f64 a)) (VFloat y) = Some (cmp a (VFloat y)).
+Proof. exact mixed_compare_spec_of_rounded. Qed.
+Print Assumptions C09_mixed_compare_spec_of_rounded.
+
+(* FULL STATEMENT: C09_cmp_is_spec for all numbers — false: 2^64 vs 1e30 and +Inf
    (big ints outside int64 are compared as infinities), 1/3 vs the float next
    to it (rationals are rounded first) *)
 Theorem C09_cmp_bigint_inf_refuted :
